@@ -3,6 +3,7 @@ import Driver.Env
 import Driver.Cb
 import Driver.Views
 import Driver.Emu
+import Driver.Color
 /-
 Line-protocol driver: one case per line, first token selects the engine, one reply line per case.
 Stateless across lines (a line is a complete case = a replay).  Core-only imports so that it links.
@@ -19,6 +20,7 @@ def dispatch (env : Env) (eng rest : String) : String :=
   | "emu" => Emu.run env rest
   | "emucheck" => Emu.runCheck env rest
   | "emusame" => Emu.runSame env rest
+  | "color" => Color.run rest
   | _ => "bad-engine"
 
 def handle (env : Env) (line : String) : String :=
